@@ -10,9 +10,33 @@
    The whole-grammar statement (let/func/if/switch/try/closure/map constructs themselves) is checked by the
    correspondence run on every generated program (c16_im/c16_is); the theorems below cover every expression
    of the C03 fragment under EVERY stack of enclosing binders, and the capture bookkeeping of closures. *)
-From P2 Require Import Base.Prelude Lex.Token Syn.Ast Syn.Parse Syn.Render Syn.Qualify Syn.QualifyProofs.
+From P2 Require Import Base.Prelude Lex.Token Syn.Ast Syn.Parse Syn.Render Syn.Qualify Syn.QualifyProofs
+  Syn.Full Syn.QualifyFull Syn.QualifyFullProofs.
 
-(* withmap_is_qualify, partial: restricted to the expression fragment (operators, parentheses, identifiers,
+(* withmap_is_qualify for the FULL grammar (rendering trees of Syn/Full.v: let / func / if / switch / try / closures /
+   list and map literals besides the expression fragment): for every operator table, every generator chain B, every
+   stack L of enclosing binders and every well-formed program r that does not rebind m, the parse of r in
+   implicit-attribute mode and the parse of the qualified program in plain mode yield the SAME annotated AST
+   (OuterIdents / Recursive / ThisName included).  [fqualify m B bd r] writes ( m . x ) for every identifier use x that is
+   not in the bound names bd (extended by let / func / closure parameters on the way down), is not m, and is not a
+   constant or static function of B. *)
+Theorem C16_withmap_is_qualify : forall cfg m B, m <> [] -> table_ok cfg = true ->
+  forall L r e u, local L = true -> bound_in L m = false -> fresh m r = true ->
+  fwf cfg r = true -> ferase cfg (wm_chain m B L) r = Some (e, u) ->
+  parse cfg (wm_chain m B L) (fflatten cfg r) = POk e /\
+  parse cfg (pl_chain m B L) (fflatten cfg (fqualify m B (bnames L) r)) = POk e.
+Proof. exact withmap_is_qualify_full. Qed.
+
+(* ... and starting from the TEXT: every token list GenerateWithMap's parser accepts is the rendering of a program tree
+   (soundness of the parser model for the full grammar), whose qualified program parses in plain mode to the same AST *)
+Theorem C16_withmap_is_qualify_tokens : forall cfg m B, m <> [] -> table_ok cfg = true ->
+  forall L ts e, local L = true -> bound_in L m = false -> full_toks ts = true ->
+  parse cfg (wm_chain m B L) ts = POk e ->
+  exists r, fflatten cfg r = ts /\ fwf cfg r = true /\
+            (fresh m r = true -> parse cfg (pl_chain m B L) (fflatten cfg (fqualify m B (bnames L) r)) = POk e).
+Proof. exact withmap_is_qualify_tokens. Qed.
+
+(* the same on the rendering trees of the expression fragment (Syn/Render.v), kept for C03's fragment theorems: restricted to the expression fragment (operators, parentheses, identifiers,
    literals, member access, method call, call, index, list literal), under any enclosing binders L that do not
    rebind m.  Full statement (not proved, checked by correspondence):
      forall exp, parse cfg (wm_chain m B []) (tokens exp) = parse cfg (pl_chain m B []) (tokens (qualify exp)). *)
@@ -94,6 +118,23 @@ Example C16_nonvacuous :
                       (AOp [42]%N 1 (AConst [51]%N) (AIdent [98]%N false))).
 Proof. vm_compute. repeat split. Qed.
 
+(* non-vacuity, full grammar:  l.map(e -> e + a)  with attributes l and a: the closure captures the map *)
+Definition q_prog : ft :=
+  FMethod (FIdent [108]%N) [109; 97; 112]%N (FA_last (FClo1 [101]%N (FBin 0 (FIdent [101]%N) (FIdent [97]%N)))).
+Example C16_nonvacuous_full :
+  fqualify q_m q_B [] q_prog
+  = FMethod (FParen (FAccess (FIdent q_m) [108]%N)) [109; 97; 112]%N
+      (FA_last (FClo1 [101]%N (FBin 0 (FIdent [101]%N) (FParen (FAccess (FIdent q_m) [97]%N))))) /\
+  parse q_cfg (wm_chain q_m q_B []) (fflatten q_cfg q_prog)
+  = POk (AMethod [109; 97; 112]%N
+           [AClosure [[101]%N] (AOp [43]%N 0 (AIdent [101]%N false) (AAccess [97]%N (AIdent q_m false))) [q_m] false []]
+           (AAccess [108]%N (AIdent q_m false))) /\
+  parse q_cfg (pl_chain q_m q_B []) (fflatten q_cfg (fqualify q_m q_B [] q_prog))
+  = parse q_cfg (wm_chain q_m q_B []) (fflatten q_cfg q_prog).
+Proof. vm_compute. repeat split. Qed.
+
+Print Assumptions C16_withmap_is_qualify.
+Print Assumptions C16_withmap_is_qualify_tokens.
 Print Assumptions C16_withmap_is_qualify_partial.
 Print Assumptions C16_attribute_lookup.
 Print Assumptions C16_other_lookup.
